@@ -63,7 +63,7 @@ def seeded(args):
             missed.append(i)
             continue
         try:
-            props = PROPS if allchecks else [meta["property"]] + [p for p in meta.get("also_run", [])]
+            props = PROPS if allchecks else sorted(set([meta["property"]] + meta.get("also_run", []) + meta.get("expected", [])))
             res = [run_check(p) for p in props]
         finally:
             sh("git -C /repo checkout -- .")
@@ -75,9 +75,12 @@ def seeded(args):
             i, "all 19 properties" if allchecks else ", ".join(props))
         json.dump(meta, open(os.path.join(d, "meta.json"), "w"), indent=1)
         status = "DETECTED by " + ",".join(flagged) if flagged else "MISSED"
-        if meta["property"] not in flagged:
-            status += "  (own property %s silent)" % meta["property"]
+        want = meta.get("expected", [meta["property"]])
+        if not any(p in flagged for p in want):
+            status += "  (expected %s silent)" % ",".join(want)
             missed.append(i)
+        elif meta["property"] not in flagged:
+            status += "  (nominal property %s silent, see triage_note)" % meta["property"]
         print("%-10s %s%s" % (i, status, ("  tool errors: %s" % [(e["prop"], e["stderr_tail"][-200:]) for e in errors]) if errors else ""), flush=True)
     print("seeded: %d run, %d not flagged by the check of their own property: %s" % (len(ids), len(missed), missed))
     return 0 if not missed else 1
